@@ -105,6 +105,12 @@ pub fn scenario(seed: u64, idx: u64) -> Scenario {
         let climb_first = rng.chance(2, 3);
         for s in 0..nseg {
             let pick = if climb_first && s < depth + 1 && rng.chance(3, 4) { 0 } else { rng.below(14) };
+            // in climbing position, now and then a spelling that only *becomes* ".." after some
+            // normalisation (path parameters, NUL, encodings, other separators, trailing dots and blanks)
+            if pick == 0 && rng.chance(1, 5) {
+                segs.push(rng.pick(&["..;", "..;v=1", "..;jsessionid=1", "..%00", "..%20", ".. ", "...", "..%2e", "%2e%2e", ".%2e", "%2e.", "..\\", "..%5c", "..%2f", "..?", "..#", "%252e%252e", "..%c0%af", "\u{ff0e}\u{ff0e}", "..\t"]).to_string());
+                continue;
+            }
             segs.push(match pick {
                 0 | 1 => "..".into(),
                 2 => ".".into(),
